@@ -1,7 +1,7 @@
 check(
     "C11",
     "bounded symbolic execution (SX) of the real transform on symbolic real matrices; one z3 NRA query per output cell against scikit-learn's powers_ table",
-    "For every (n_features<=4/6, degree<=4/5, interaction_only, include_bias, kind) the real fit/transform/get_feature_names_out run on a symbolic 2xn real matrix; z3 shows each output cell equals the monomial given by PolynomialFeatures.powers_ for ALL real inputs (polynomial identity), n_output_features_ and names match. Bounded in n and degree only.",
+    "For every (n_features<=4/6, degree<=4/5, interaction_only, include_bias, kind) the real fit/transform/get_feature_names_out run on a symbolic 2xn real matrix (and on 4100/9000 rows tiled from two symbolic rows for n=2, degree=2); z3 shows each output cell equals the monomial given by PolynomialFeatures.powers_ for ALL real inputs (polynomial identity), n_output_features_ and names match. Bounded in n and degree only.",
     "Reals not floats (association order of float products outside the claim); PolynomialFeatures.powers_ is the trusted oracle; dense input only.",
     "DESIGN.md 3.C11",
 )
@@ -64,15 +64,15 @@ check(
 check(
     "C07",
     "bounded symbolic execution (SX, z3 LIA/LRA) end to end on tiny shapes, plus inductive one-step checks on AST slices of the real loops from arbitrary symbolic states (all n)",
-    "`distance`: the sliced body of the assignment loop, from ANY state satisfying the stated invariant with symbolic limit/leftover/counters and an arbitrary preference order, labels the point, preserves the invariant, and the invariant at the end forces sizes floor/ceil(n/k) -- every n, every ordering (k<=3/4). `gain`: quota lemma leftclose<=1 for symbolic cluster counts (all n, k<=3/4), and one step of the main loop from an arbitrary bookkeeping state keeps counters = histogram of labels and closes every moved point (n<=3/4, k=3). Both strategies and both _p variants end to end on a fully symbolic distance matrix for (n,k)=(2,2) (+(3,2) thorough) over every ordering, tie, draw and initial labelling.",
+    "`distance`: the sliced body of the assignment loop, from ANY state satisfying the stated invariant with symbolic limit/leftover/counters and an arbitrary preference order, labels the point, preserves the invariant, and the invariant at the end forces sizes floor/ceil(n/k) -- every n, every ordering (k<=3/4). `gain`: quota lemma leftclose<=1 for symbolic cluster counts (all n, k<=3/4), and one step of the main loop from an arbitrary bookkeeping state keeps counters = histogram of labels and closes every moved point (n<=3/4, k=3). Both strategies and both _p variants end to end on a fully symbolic distance matrix for (n,k)=(2,2) (+(3,2) thorough) over every ordering, tie, draw and initial labelling. The real ConstraintKMeans.predict on that matrix: balanced -> sizes, not balanced -> exactly KMeans.predict's nearest centre. _randomize_index (n<=4/5, every starting order, tie pattern and draw) leaves a permutation of the points, which is what the inductive step assumes about the processing order.",
     "Distances are an arbitrary non-negative matrix (geometry abstracted; x**2 and divisions over-approximated in the end-to-end layer); centres/inertia/KMeans are scikit-learn's; gain's main loop is not proven to reach its quotas (listed known finding for n mod k >= 2). Counterexamples are replayed through ConstraintKMeans.fit/predict on real points.",
     "DESIGN.md 3.C07",
 )
 check(
     "C09",
     "translation (CY2PY: Cython's parser -> Python, validated every run against the compiled extension) + bounded symbolic execution (SX, z3 NRA) of the lowered criteria and of the real Python leaf-regression code",
-    "For every (start,pos,end) triple, n<=4/5, listed sample orders and weight settings: node value = weighted mean, node/children impurities = weighted mean squared residual of the constant fit over exactly the node's / children's rows (simple and fast criteria, as polynomial identities in symbolic y), proxy and impurity_improvement formulas, children weights, update/reset == fresh init; linear criterion (unit weights): dgelss receives exactly the node's rows and targets, impurity = mean squared residual of the returned beta over those rows, 0 when rows <= coefficients. Python side: each leaf's regression sees exactly its rows, predict(row) = [row,1].beta(leaf(row)), and criterion='simple' after 'mselin' on the same instance uses the tree's prediction.",
-    "LAPACK's dgelss answers an arbitrary beta (numerics trusted); scikit-learn's splitter (max_depth/min_samples_leaf) not encoded; fully symbolic weights only for node value and children weights (impurity identities decided on rational non-uniform weight grids); reals not floats.",
+    "For every (start,pos,end) triple, n<=4/5, listed sample orders and weight settings: node value = weighted mean, node/children impurities = weighted mean squared residual of the constant fit over exactly the node's / children's rows (simple and fast criteria, as polynomial identities in symbolic y), proxy and impurity_improvement formulas, children weights, update/reset == fresh init; linear criterion (unit weights): the LAPACK driver receives exactly the node's rows and targets and is one whose contract covers rank-deficient designs (dgelss/dgelsd/dgelsy; dgels refutes this), impurity = mean squared residual of the returned beta over those rows, 0 when rows <= coefficients. Python side: each leaf's regression sees exactly its rows, predict(row) = [row,1].beta(leaf(row)), and criterion='simple' after 'mselin' on the same instance uses the tree's prediction.",
+    "LAPACK's driver answers an arbitrary beta; that it answers the least-squares fit also for rank-deficient designs is checked on the compiled code on four concrete designs per run (floating point: outside the solver's claim); scikit-learn's splitter (max_depth/min_samples_leaf) not encoded; fully symbolic weights only for node value and children weights (impurity identities decided on rational non-uniform weight grids); reals not floats.",
     "DESIGN.md 3.C09",
 )
 check(
@@ -113,28 +113,28 @@ check(
 check(
     "C02",
     "bounded symbolic execution (SX, z3 LIA/LRA) with a symbolic fault schedule: every collaborator call site raises iff its symbolic Bool is true; symbolic hyper-parameters; concrete-mode replay of the same scenario",
-    "For ConstraintKMeans.fit (symbolic max_iter in [1,1000], kmeans0 on/off, both strategies), PiecewiseTreeRegressor.fit (three criteria), PiecewiseRegressor.fit and IntervalRegressor.fit (each of 3 local models/members failing or not), QuantileLinearRegression.fit (each of 2 inner solves failing or not) and score, TransformedTargetRegressor2/Classifier2, PredictableTSNE and KMeansL1L2: on EVERY path, failing or not, get_params(deep) is what it was, the caller's X/y/sample_weight cells are untouched, the estimator parameter objects are never fitted (clones are), a normal fit returns self, and after a failed fit a fault-free fit hands the parent class what a fresh clone would; score twice agrees and leaves float64 weights intact; predict leaves parameters and data intact.",
+    "For ConstraintKMeans.fit (symbolic max_iter in [1,1000], kmeans0 on/off, both strategies), PiecewiseTreeRegressor.fit (three criteria), PiecewiseRegressor.fit and IntervalRegressor.fit (each of 3 local models/members failing or not), QuantileLinearRegression.fit (each of 2 inner solves failing or not) and score, TransformedTargetRegressor2/Classifier2, PredictableTSNE and KMeansL1L2: on EVERY path, failing or not, get_params(deep) is what it was, the caller's X/y/sample_weight cells are untouched, the estimator parameter objects are never fitted (clones are), a normal fit returns self, and after a failed fit a fault-free fit hands the parent class what a fresh clone would; score twice agrees and leaves float64 weights intact; predict leaves parameters and data intact; with a symbolic fit_intercept the caller's own X object only reaches QuantileLinearRegression's inner solver together with copy_X=True.",
     "Collaborators are stubs raising on their fault flag (real triggers such as NaN input are represented by them); estimators not listed are outside; rows 2-8.",
     "DESIGN.md 3.C02",
 )
 check(
     "C03",
     "bounded symbolic execution (SX) with self-composition: refit-vs-fresh-clone pairs compared inside one scenario; random draws symbolic with provenance tracking (global stream vs seeded RandomState), confirmed semantically by replay under different NumPy global seeds",
-    "Refit == fresh fit for PiecewiseRegressor (buckets, routing, training rows of each local model), PermutationReciprocalTransformer, CategoriesToIntegers (columns and values), ClassifierAfterKMeans, ExtendedFeatures, IntervalRegressor over pairs of training sets of different sizes / layouts / label sets / columns (every choice explored). Seed discipline: with an integer random_state ConstraintKMeans (fit with kmeans0 on/off, both strategies, balanced predict), PiecewiseClassifier and KMeansL1L2 make no draw from NumPy's global stream or an unseeded generator, for every outcome of the draws.",
+    "Refit == fresh fit for PiecewiseRegressor (buckets, routing, training rows of each local model), PermutationReciprocalTransformer, CategoriesToIntegers (columns and values), ClassifierAfterKMeans, ExtendedFeatures, IntervalRegressor, PredictableTSNE (the perplexity clamp of one fit does not leak into the next: perplexity in {2,3,5,30}, 3..6 then 3..8 rows) over pairs of training sets of different sizes / layouts / label sets / columns (every choice explored). Seed discipline: with an integer random_state ConstraintKMeans (fit with kmeans0 on/off, both strategies, balanced predict), PiecewiseClassifier and KMeansL1L2 make no draw from NumPy's global stream or an unseeded generator, for every outcome of the draws.",
     "Provenance of draws is a sufficient condition for independence from the global seed; estimators whose randomness lives inside scikit-learn (TSNE, MLP, KMeans L2) are outside; stubs of C08/C13/C17 reused; small shapes.",
     "DESIGN.md 3.C03",
 )
 check(
     "C04",
     "bounded symbolic execution (SX, z3 LRA+UF) of the real dispatch code on a 3-row symbolic batch against all its permutations, single rows, a sub-batch and repeated calls; inner models uninterpreted row-wise functions; concrete pickle round trips",
-    "For PiecewiseRegressor.predict, PiecewiseClassifier.predict_proba, transform_bins (every routing incl. a bucket unseen at training time), DecisionTreeLogisticRegression.predict_proba/decision_path, KMeansL1L2 (L1) predict/transform, ClassifierAfterKMeans, IntervalRegressor predict_all/predict/predict_sorted, SkBaseTransformLearner.transform (4 methods) and PiecewiseTreeRegressor's leaf regressions: the output of a row is the same in every order of the batch, alone, in a sub-batch and on a repeated call. clone_with_fitted_parameters gives identical outputs, does not follow a later retrain, and a second clone after the retrain has the new state. Really fitted estimators (8 of them, incl. compiled criteria) give identical outputs after a pickle round trip.",
+    "For PiecewiseRegressor.predict, PiecewiseClassifier.predict_proba, transform_bins (every routing incl. a bucket unseen at training time), DecisionTreeLogisticRegression.predict_proba/decision_path, KMeansL1L2 (L1) predict/transform, ClassifierAfterKMeans, IntervalRegressor predict_all/predict/predict_sorted, SkBaseTransformLearner.transform (4 methods) and PiecewiseTreeRegressor's leaf regressions: the output of a row is the same in every order of the batch, alone, in a sub-batch and on a repeated call. clone_with_fitted_parameters gives identical outputs, does not follow a later retrain, and a second clone after the retrain has the new state. A frozen TransferTransformer (copy, not trainable) is row-wise pure and neither it nor its clone_with_fitted_parameters copy follows the source estimator when its owner retrains it. Really fitted estimators (8 of them, incl. compiled criteria) give identical outputs after a pickle round trip.",
     "Inner models are row-wise pure by construction (stubs); pickle is exercised concretely, not symbolically; 3-row batches; ConstraintKMeans' balanced predictions are batch dependent by design and excluded.",
     "DESIGN.md 3.C04",
 )
 check(
     "C16",
     "path-complete bounded exploration (SX): the pipeline is decoded from a symbolic shape code realised by z3 (all-models enumeration of the structure space), real scikit-learn containers, independent ground-truth tree, DOT read by a small parser; concrete-mode replay",
-    "For every pipeline in the bound (top-level Pipeline of 1-2 steps + optional final classifier/regressor; steps = transformer, nested Pipeline, FeatureUnion, or first-step ColumnTransformer with 1-2 branches incl. nested pipelines and passthrough, 4 column selections, remainder drop/passthrough; <=3/4 leaf transformers; depth <=3) and each data schema (DataFrame, ndarray, list of names): enumerate_pipeline_models yields every nested estimator (each passthrough occurrence included) exactly once, parents first, distinct coordinates of length depth+1, with the branch columns; pipeline2str has one line per model indented by depth; alter_pipeline_for_debugging leaves every output of the fitted pipeline unchanged and each step records its last input/output with consecutive steps chaining; pipeline2dot is well-formed DOT with declared endpoints and ports, every leaf step once, every input column, acyclic, final outputs reachable from sch0.",
+    "For every pipeline in the bound (top-level Pipeline of 1-2 steps + optional final classifier/regressor; steps = transformer, nested Pipeline, FeatureUnion, or first-step ColumnTransformer with 1-2 branches incl. nested pipelines and passthrough, 4 column selections, remainder drop/passthrough; <=3/4 leaf transformers; depth <=3) and each data schema (DataFrame, ndarray, list of names): enumerate_pipeline_models yields every nested estimator (each passthrough occurrence included) exactly once, parents first, distinct coordinates of length depth+1, with the branch columns; pipeline2str has one line per model indented by indent*depth (indent 3, 2, 5); alter_pipeline_for_debugging leaves every output of the fitted pipeline unchanged and each step records its last input/output with consecutive steps chaining, the final classifier recording each of predict / predict_proba / decision_function; pipeline2dot is well-formed DOT with declared endpoints and ports, every leaf step once, every input column, acyclic, final outputs reachable from sch0.",
     "The solver's share is the enumeration of structures (no arithmetic). Leaf estimators are tagged stubs; third-party containers (azureml, sklearn-pandas) and TransformedTargetRegressor are outside; wider/deeper pipelines are outside the bound.",
     "DESIGN.md 3.C16",
 )
